@@ -6,7 +6,7 @@
        recursive calls, and no body on a guarded cycle builds a fresh depth counter
  R01.5 checked_jump_target compares the target against 0 and len before it is used as pc
 """
-import json, os, re, collections
+import json, os, re, sys, collections
 import lib, panic_edges
 
 PKGS = ("rscel", "rscel-to-sql")
@@ -72,6 +72,113 @@ def body_has_bound_compare(b):
     return False
 
 
+STACK_BUDGET = 2 * 1024 * 1024       # std's default stack of a spawned thread (also what the test harness gives every test); the main thread has 8 MiB
+LEAF_ALLOWANCE = 128 * 1024          # helper chains below the recursion (tokenizer, value operations, formatting): generous constant, not derived
+
+
+def _norm_symbol(nm):
+    nm = nm.replace("$LT$", "<").replace("$GT$", ">").replace("$u20$", " ").replace("$C$", ",").replace("$u7b$", "{").replace("$u7d$", "}") \
+           .replace("$RF$", "&").replace("$BP$", "*").replace("$u27$", "'").replace("$u5b$", "[").replace("$u5d$", "]").replace("..", "::")
+    nm = re.sub(r"^_<", "<", nm)
+    return nm
+
+
+def _key_of_path(path):
+    """comparable key of a MIR body path / a demangled symbol: generic arguments and closure indices dropped"""
+    p = re.sub(r"::<[^<>]*(?:<[^<>]*>[^<>]*)*>", "", path)
+    p = re.sub(r"\{closure#\d+\}", "{{closure}}", p)
+    p = re.sub(r"\b(std|core|alloc)::", "", p)
+    return p
+
+
+def stack_budget(chk, F, cg, guarded_sccs):
+    import subprocess
+    chk.rule("R01.7", "stack budget: for every guarded recursion, (depth limit) x (heaviest call chain between two passes of the guard, from the compiler's frame sizes) plus an allowance "
+                      "for helper calls fits the 2 MiB stack of a spawned thread - in the dev profile and in the optimised profile")
+    limits = {}
+    import mirq
+    for path in GUARD_PRIMS:
+        b = F.body(path)
+        cs = sorted(set(c[2] for c in mirq.BodyQ(b).const_compares() if isinstance(c[2], int) and c[2] > 1))
+        limits[path] = cs
+    rr = F.body("rscel::interp::interp::Interpreter::<'a>::run_raw")
+    rr_limits = sorted(set(c[2] for c in mirq.BodyQ(rr).const_compares() if isinstance(c[2], int) and 8 <= c[2] <= 4096 and c[1] in ("Gt", "Ge", "Lt", "Le")))
+    for profile in ("dev", "opt"):
+        r = subprocess.run([sys.executable, os.path.join(lib.VERIF, "tools", "build_stack.py"), profile], capture_output=True, text=True,
+                           env=dict(os.environ, VERIF_REPO=lib.REPO if hasattr(lib, "REPO") else os.environ.get("VERIF_REPO", "/repo")))
+        if r.returncode != 0:
+            raise lib.MissingAnchor("frame sizes (%s profile) could not be built: %s" % (profile, r.stderr[-400:]))
+        data = json.load(open(r.stdout.strip().splitlines()[-1]))
+        frames = {}
+        for nm, sz in data["frames"].items():
+            k = _key_of_path(_norm_symbol(nm))
+            frames[k] = max(frames.get(k, 0), sz)
+        chk.analysed["frame records (%s)" % profile] = data["records"]
+        for name, comp, guards in guarded_sccs:
+            comp_set = set(comp)
+            fsz, missing = {}, []
+            for c in comp:
+                k = _key_of_path(F.bodies[c].path)
+                if k in frames:
+                    fsz[c] = frames[k]
+                else:
+                    fsz[c] = 0
+                    missing.append(lib.short(F.bodies[c].path))
+            if profile == "dev" and len(missing) > max(2, len(comp) // 4):
+                chk.bad("R01.7", "frames|%s|%s" % ("+".join(sorted(lib.short(F.bodies[g].path).split("::")[-1] for g in guards)), profile), "no frame size found for %d of %d functions of the cycle (%s ...): the symbol mapping does not cover this cycle" % (len(missing), len(comp), missing[:4]), "")
+                continue
+            rest = comp_set - guards
+            memo = {}
+
+            def longest(v):
+                if v in memo:
+                    return memo[v]
+                memo[v] = (fsz[v], [v])          # (cycle protection: the remainder is acyclic by R01.4)
+                best, bp = 0, []
+                for y in cg.edges.get(v, ()):
+                    if y in rest and y != v:
+                        w, pth = longest(y)
+                        if w > best:
+                            best, bp = w, pth
+                memo[v] = (fsz[v] + best, [v] + bp)
+                return memo[v]
+            per_level, chain = 0, []
+            for g in guards:
+                best, bp = 0, []
+                for y in cg.edges.get(g, ()):
+                    if y in rest:
+                        w, pth = longest(y)
+                        if w > best:
+                            best, bp = w, pth
+                if fsz[g] + best > per_level:
+                    per_level, chain = fsz[g] + best, [g] + bp
+            # the depth limit of this cycle: the constant its guard compares with
+            gp = set()
+            for g in guards:
+                for y in cg.edges.get(g, ()):
+                    if y in F.bodies and F.bodies[y].path in GUARD_PRIMS:
+                        gp.add(F.bodies[y].path)
+            lim = None
+            if any(p.endswith("enter_nested") for p in gp):
+                lim = max(limits[[p for p in gp if p.endswith("enter_nested")][0]] or [0]) or None
+            elif rr_limits:
+                lim = max(rr_limits)
+            key = "recursion guarded in %s|%s" % ("+".join(sorted(lib.short(F.bodies[g].path).split("::")[-1] for g in guards)), profile)
+            if not lim:
+                chk.bad("R01.7", key + "|limit", "the depth limit of this cycle could not be read from its guard", "")
+                continue
+            need = lim * per_level + LEAF_ALLOWANCE
+            detail = {"depth limit": lim, "bytes per level": per_level, "heaviest chain": [lib.short(F.bodies[c].path).split("::")[-1] for c in chain][:14],
+                      "total": need, "budget": STACK_BUDGET, "functions without a frame record (inlined)": len(missing)}
+            if need <= STACK_BUDGET:
+                chk.ok("R01.7", key, detail)
+            else:
+                chk.bad("R01.7", key, "in the %s profile the recursion %s can need %d x %d = %.1f MiB of stack (heaviest chain per level: %s), more than the %d MiB of a spawned thread: "
+                                      "input nested to the accepted limit overflows the stack and aborts the process instead of returning the depth error"
+                        % (profile, name, lim, per_level, lim * per_level / 1048576.0, " > ".join(detail["heaviest chain"][:12]), STACK_BUDGET // 1048576), "rscel/src/compiler/compiler.rs")
+    chk.floor("R01.7", "guarded recursions measured", len(guarded_sccs), 4)
+
+
 def run(chk, tier):
     F = lib.get_facts()
     cg = F.callgraph()
@@ -80,6 +187,7 @@ def run(chk, tier):
     chk.rule("R01.3", "panic-looking callee names must be classified in PANIC_API or SAFE_API")
     chk.rule("R01.4", "call-graph SCCs: structural-over-value, or cut by a dominating depth guard; no fresh depth counter on a guarded cycle")
     chk.rule("R01.5", "checked_jump_target tests target < 0 and target > len")
+    guarded_sccs = []
     out, unclassified, nb, nc = panic_edges.census(F, PKGS)
     chk.analysed.update({"bodies": nb, "call_sites": nc, "panic_edges": sum(len(v) for v in out.values()), "table_rows": len(table)})
     for (bp, callee, line, f) in unclassified:
@@ -221,6 +329,7 @@ def run(chk, tier):
                     "%s builds a fresh depth counter (%s) on a guarded recursion cycle: the guard is reset" % fresh[0], "")
             continue
         guarded += 1
+        guarded_sccs.append((name, list(comp), set(guards)))
         chk.ok("R01.4", "guarded|" + name, {"guards": sorted(lib.short(F.bodies[g].path) for g in guards), "cycle_size": len(comp)})
     for gp in GUARD_PRIMS:
         b = F.body(gp) if gp.endswith("enter_nested") else None
@@ -313,6 +422,10 @@ def run(chk, tier):
             else:
                 chk.ok("R01.6", key, "nesting inherited before first use")
     chk.floor("R01.6", "parsers created inside parse functions (format-string segments)", n_created, 1)
+
+    # ---- R01.7 stack budget of the guarded recursions (thorough tier: needs a code-generating build for the frame sizes)
+    if tier == "thorough" or os.environ.get("VERIF_STACK"):
+        stack_budget(chk, F, cg, guarded_sccs)
 
     # ---- R01.5
     cj = F.body("rscel::interp::interp::Interpreter::<'a>::checked_jump_target")
